@@ -200,6 +200,9 @@ func evalC18(c *engine.Case) engine.Verdict {
 	if gc.N > 24 {
 		v.Class("vertices>24")
 	}
+	if gc.CopyAt > 0 {
+		v.Class("built-through-a-copy")
+	}
 	v.Class(fmt.Sprintf("reachable=%d", min(reach/4*4, 20)))
 	v.NonTrivial = multiPred
 	return v
